@@ -10,7 +10,7 @@ func init() {
 var vC04Shapes = []int{0, 1, 5, 6, 2, 3, 7} // (shapes 8, 9 - line-less locations - are for C17: a graph treats them like shape 4's function-less frame)
 
 // order used by the trimming check (C05)
-var vC05Shapes = []int{6, 1, 5, 0, 2, 3, 7}
+var vC05Shapes = []int{6, 1, 10, 5, 0, 2, 3, 7}
 
 // VerifC04TextItems: flat / cum / edge weights of an untrimmed report equal
 // their definition over the samples, for every sample value.
